@@ -99,6 +99,7 @@ pub fn build_options(sc: &Scratch, o: &OptSet, stream_path: &Path) -> Options {
     opts.prune_empty = pm(o.prune_empty);
     opts.prune_degenerate = pm(o.prune_degenerate);
     opts.no_ff = o.no_ff;
+    opts.no_data = o.no_data;
     opts
 }
 
@@ -205,6 +206,7 @@ pub fn model_request(o: &OptSet, stream: &[u8], nmarks: u32, all_paths: &[Vec<u8
     kv.push(format!("pe={}", pm_name(o.prune_empty)));
     kv.push(format!("pd={}", pm_name(o.prune_degenerate)));
     kv.push(format!("noff={}", if o.no_ff { 1 } else { 0 }));
+    if o.no_data { kv.push("nodata=1".into()); }
     kv.push(format!("marks={nmarks}"));
     format!("filter {} {}", kv.join(";"), enc(stream))
 }
